@@ -87,7 +87,7 @@ class StepWorld:
         with warnings.catch_warnings(), contextlib.redirect_stdout(io.StringIO()):
             warnings.simplefilter("ignore")
             df = workload.make_cohort(st, kind=cfg["kind"], n=cfg["n"], n_features=cfg["nf"], max_visits=cfg["max_visits"],
-                                      missing_rate=cfg["missing"], whole_feature_missing=cfg.get("whole_ft", False))
+                                      missing_rate=cfg["missing"], whole_feature_missing=cfg.get("whole_ft", False), baseline_axis=bool(cfg.get("baseline_axis")))
             self.df = df
             data = workload.to_data(df, cfg["kind"])
             self.dataset = Dataset(data)
@@ -447,3 +447,5 @@ def _vary_shape(st: Stream, cfg: dict) -> None:
     cfg["init_random"] = st.bernoulli(0.2)
     if st.bernoulli(0.25):
         cfg["random_order_variables"] = False
+    if st.bernoulli(0.15):
+        cfg["baseline_axis"] = True
